@@ -285,9 +285,9 @@ _CACHE = {}
 _STATS = {'acc': 1.0, 'sir': np.inf, 'sir_bf': ''}
 
 
-def _chain(model, steering, owner, source, noise, perm, blur, dhtv, iterations, global_variant):
+def _chain(model, steering, owner, source, noise, perm, blur, dhtv, iterations, global_variant, entry='fit+predict'):
     """run the documented chain once per (scene, model); cached so the per-beamformer oracles share it"""
-    key = (id(noise), id(steering), model, global_variant, float(blur), int(iterations))
+    key = (id(noise), id(steering), model, global_variant, float(blur), int(iterations), entry)
     hit = _CACHE.get('last')
     if hit is not None and hit[0] == key and hit[1] is noise:
         return hit[2]
@@ -297,7 +297,7 @@ def _chain(model, steering, owner, source, noise, perm, blur, dhtv, iterations, 
     Y = images.sum(axis=0) + noise                                            # F, D, T
     truth = np.broadcast_to((owner[None, :] == np.arange(K)[:, None])[:, None, :], (K, F, T)).astype(np.float64)
     init = pu.start_masks(owner, perm, blur, K, F)
-    post = pu.fit_predict(model, Y.transpose(0, 2, 1), init, iterations)      # F, K, T
+    post = pu.fit_predict(model, Y.transpose(0, 2, 1), init, iterations, entry)      # F, K, T
     aligned, mapping, gmap = pu.align(post, dhtv, truth, Y, images, global_variant)
     res = dict(images=images, Y=Y, truth=truth, post=post, aligned=aligned, mapping=mapping, gmap=gmap)
     _CACHE['last'] = (key, noise, res)
@@ -330,12 +330,12 @@ def _domain(steering, owner, source, noise, perm, dhtv):
 
 
 @oracle
-def map_accuracy(model, steering, owner, source, noise, perm, blur, dhtv, iterations, global_variant):
+def map_accuracy(model, steering, owner, source, noise, perm, blur, dhtv, iterations, global_variant, entry='fit+predict'):
     """aligned posteriors: MAP class == true source in >= 99 % of the time-frequency points"""
     why = _domain(steering, owner, source, noise, perm, dhtv)
     if why:
         return Skip(why)
-    r = _chain(model, steering, owner, source, noise, perm, blur, dhtv, iterations, global_variant)
+    r = _chain(model, steering, owner, source, noise, perm, blur, dhtv, iterations, global_variant, entry)
     al = r['aligned']
     K, F, T = r['truth'].shape
     if al.shape != (K, F, T):
@@ -356,12 +356,12 @@ def map_accuracy(model, steering, owner, source, noise, perm, blur, dhtv, iterat
 
 @oracle
 def output_sir(beamformer, noise_variant, model, steering, owner, source, noise, perm, blur, dhtv, iterations,
-               global_variant):
+               global_variant, entry='fit+predict'):
     """every source: output_sxr(...).sir >= 30 dB for the named beamformer designed from the aligned posteriors"""
     why = _domain(steering, owner, source, noise, perm, dhtv)
     if why:
         return Skip(why)
-    r = _chain(model, steering, owner, source, noise, perm, blur, dhtv, iterations, global_variant)
+    r = _chain(model, steering, owner, source, noise, perm, blur, dhtv, iterations, global_variant, entry)
     try:
         W, _ = pu.design_beamformers(beamformer, r['Y'], r['aligned'], noise_variant)
     except Exception as e:  # the property allows no exception on a separable scene
@@ -387,12 +387,16 @@ def _draw_case(rng, Fs):
     T = int(rng.integers(60, 201))
     noise_db = -float(rng.choice([40, 40, 40, 45, 50, 60]))
     steering, owner, source, noise, akind = pu.make_scene(rng, K, D, F, T, noise_db)
+    # absolute level of the recording (the property does not restrict it): sources and sensor noise scaled together
+    level = 1.0 if rng.random() < 0.4 else float(10 ** rng.uniform(-3, 3))
+    source, noise = source * level, noise * level
     dhtv, pkind = pu.dhtv_cfg(rng, F)
     plan = _ref_plan(dhtv, F)
     perm = pu.perm_field(rng, K, F, plan, majority=0.70 if rng.random() < 0.4 else None)
     blur = float(rng.uniform(0.5, 0.9))
     return dict(steering=steering, owner=owner, source=source, noise=noise, perm=perm, blur=blur, dhtv=dhtv,
-                iterations=10), dict(K=K, D=D, F=F, T=T, noise_db=noise_db, activity=akind, plan=pkind)
+                iterations=10), dict(K=K, D=D, F=F, T=T, noise_db=noise_db, activity=akind, plan=pkind,
+                                 level='1' if level == 1.0 else '1e%d' % int(np.floor(np.log10(level))))
 
 
 def search(ctx):
@@ -414,13 +418,15 @@ def search(ctx):
         for model in pu.MODELS:
             gv = str(rng.choice(['masks-cos', 'masks-euclidean', 'notebook']))
             nv = str(rng.choice(['sum-of-others', 'sum-of-others', 'complement-mask', 'map-bool-mask']))
-            ctx.count('global-alignment-' + gv); ctx.count('noise-psd-' + nv)
+            entry = str(rng.choice(['fit+predict', 'fit_predict']))
+            ctx.count('global-alignment-' + gv); ctx.count('noise-psd-' + nv); ctx.count('entry-' + entry)
+            ctx.count('scene-level-' + info['level'])
             size = info['F'] * info['T'] * info['D']
-            ok = ctx.run(map_accuracy, _size=size, model=model, global_variant=gv, **case)
+            ok = ctx.run(map_accuracy, _size=size, model=model, global_variant=gv, entry=entry, **case)
             oks = {}
             for bf in pu.BEAMFORMERS:
                 oks[bf] = ctx.run(output_sir, _size=size, beamformer=bf, noise_variant=nv, model=model,
-                                  global_variant=gv, **case)
+                                  global_variant=gv, entry=entry, **case)
             if i < 3 and _CACHE.get('last') is not None:
                 r = _CACHE['last'][2]
                 ctx.sample({'oracle': 'map_accuracy+output_sir', **info, 'model': model, 'global_alignment': gv,
